@@ -134,7 +134,7 @@ func decompressBounded(encoding string, data []byte, maxOutput int64) ([]byte, e
 			var header zstd.Header
 			if err := header.Decode(data); err == nil && header.HasFCS &&
 				header.FrameContentSize > uint64(maxOutput) {
-				return nil, &requestBodyTooLargeError{Limit: maxOutput}
+				return nil, &decodedBodyTooLargeError{Limit: maxOutput}
 			}
 		}
 		opts := []zstd.DOption{}
@@ -169,7 +169,7 @@ func decompressBounded(encoding string, data []byte, maxOutput int64) ([]byte, e
 		return nil, fmt.Errorf("%s decompression: %w", encoding, err)
 	}
 	if maxOutput > 0 && int64(len(out)) > maxOutput {
-		return nil, &requestBodyTooLargeError{Limit: maxOutput}
+		return nil, &decodedBodyTooLargeError{Limit: maxOutput}
 	}
 	return out, nil
 }
